@@ -33,6 +33,10 @@ type MethodType struct {
 	TypePackage string
 	IsPointer   bool
 	IsVariadic  bool
+
+	// goType is the type this description was made from (nil in hand-built models).
+	// When both sides of a comparison have one, the types are compared the way Go compares them.
+	goType types.Type
 }
 
 // LoadTypes loads specified named types from the current package
@@ -192,6 +196,7 @@ func convertTypesToMethodType(t types.Type) MethodType {
 	if ptr, ok := t.(*types.Pointer); ok {
 		inner := convertTypesToMethodType(ptr.Elem())
 		inner.IsPointer = true
+		inner.goType = t
 		return inner
 	}
 
@@ -209,6 +214,7 @@ func convertTypesToMethodType(t types.Type) MethodType {
 			TypePackage: pkgPath,
 			IsPointer:   false,
 			IsVariadic:  false,
+			goType:      t,
 		}
 	}
 
@@ -219,6 +225,7 @@ func convertTypesToMethodType(t types.Type) MethodType {
 			TypePackage: "",
 			IsPointer:   false,
 			IsVariadic:  false,
+			goType:      t,
 		}
 	}
 
@@ -227,5 +234,6 @@ func convertTypesToMethodType(t types.Type) MethodType {
 		TypeName:   t.String(),
 		IsPointer:  false,
 		IsVariadic: false,
+		goType:     t,
 	}
 }
